@@ -63,3 +63,49 @@ def run(ctx: Ctx):
     ctx.extra["native_disambiguators"] = {k: [{"table": t, "fallback": fb} for t, fb in v if t != "typeerror"]
                                           for k, v in sa.native_tables.items()}
     ctx.extra["worlds"] = sa.worlds
+
+
+_run_before_declared_types = run
+
+
+def run(ctx: Ctx):  # noqa: F811
+    _run_before_declared_types(ctx)
+    # a union of the metamodel that the annotation does not spell out is not a dispatch site at all: its alternatives are never told apart
+    from . import _imgbase as _ib
+    from ..common import P_TYPES as _PT
+    from ..pymodel import show as _show, walk_ty as _walk
+    im = _ib.image(ctx)
+    n = 0
+    for p in im.pairs:
+        if p.field is None or p.exp_ty is None:
+            continue
+        has_union = any(t_[0] == "union" and len([m_ for m_ in t_[1] if m_ != ("prim", "none")]) > 1 for t_ in _walk(p.exp_ty))
+        if True and not has_union:
+            continue
+        n += 1
+        ctx.check(p.field.resolved == p.exp_ty, "union-position-is-declared", f"{p.cls.name}.{p.field.name}",
+                  f"{p.cls.name}.{p.field.name} is annotated {_show(p.field.resolved)}; the metamodel type is {_show(p.exp_ty)}",
+                  _PT, p.field.lineno)
+    ctx.floor("positions compared with the metamodel type", n, 60)
+
+
+_run_before_get_converter = run
+
+
+def run(ctx: Ctx):  # noqa: F811
+    _run_before_get_converter(ctx)
+    # every dispatch decision above presumes that the converter handed out carries the package's hooks: get_converter
+    # must run register_hooks on the default path and on a caller-supplied converter alike (decided by the fold of
+    # get_converter in C19; its two findings are this property's too)
+    from ..common import Ctx as _Ctx, AnalysisError as _AE
+    from . import c19 as _c19
+    sub = _Ctx("C14", ctx.tier, ctx.seed, ctx.src, quiet=True)
+    try:
+        _c19.run(sub)
+    except _AE:
+        pass
+    hits = [f for f in sub.findings if f.rule == "fresh-converter"]
+    for f in hits:
+        ctx.fail("hooks-registered-on-every-path", f.construct, f.message, f.file, f.line)
+    if not hits:
+        ctx.ok("hooks-registered-on-every-path")
